@@ -210,3 +210,4 @@ func verifAtU32(s []uint32, i int) uint32 {
 	return 0
 }
 func verifWant(id string) {}
+func verifRange(name string, lo, hi int) int { return int(verifVal(name)) }
